@@ -9,6 +9,7 @@ correspondence run (monitors `not_delivered_after_recovery`, `request_flood`,
 `stuck_temporary_unreachable`).
 -/
 import TeosVerif.Props.C05
+import TeosVerif.Model.RetryManager
 import TeosVerif.Gen.PluginCalls
 import TeosVerif.Lemmas.Tidy
 
@@ -584,5 +585,181 @@ theorem status_transitions_are_the_modelled_ones :
     (∀ st : TStatus, st.isRetryable = true ↔ (st = .unreachable ∨ st = .subscriptionError)) := by
   refine ⟨by decide, by decide, ?_⟩
   intro st; cases st <;> simp [TStatus.isRetryable]
+
+end Teos.C13
+
+namespace Teos.C13
+open Teos.Retry
+
+/-! ### the retry manager, step by step: never two retry loops for one tower -/
+
+/-- a retry task is alive for tower `t` exactly when its retrier is `Running`, and then there is one -/
+def want (r : Option Retrier) : Nat :=
+  match r with
+  | some r => if r.status = .running then 1 else 0
+  | none => 0
+
+def OneLoop (m : Mgr) : Prop := ∀ t, m.tasks t = want (m.retrier t)
+
+theorem oneLoop_init : OneLoop Mgr.init := fun _ => rfl
+
+/-- a step about tower `t` leaves every other tower's retrier and tasks alone -/
+theorem step_frame (m : Mgr) (s : Step) (x : TowerId) (hx : x ≠ s.target) :
+    (step m s).tasks x = m.tasks x ∧ (step m s).retrier x = m.retrier x := by
+  cases s with
+  | setKnown t k => exact ⟨rfl, rfl⟩
+  | recv t d =>
+    have e : x ≠ t := hx
+    simp only [step, recv]
+    split
+    · exact ⟨rfl, rfl⟩
+    · cases m.retrier t with
+      | none => simp [setR, e]
+      | some r =>
+        simp only
+        split
+        · split <;> simp [setR, e]
+        · simp [setR, e]
+  | tick t a =>
+    have e : x ≠ t := hx
+    simp only [step, tick]
+    cases m.retrier t with
+    | none => exact ⟨rfl, rfl⟩
+    | some r =>
+      simp only
+      repeat' split
+      all_goals simp [setR, e]
+  | finish t o =>
+    have e : x ≠ t := hx
+    simp only [step, finish]
+    split
+    · exact ⟨rfl, rfl⟩
+    · cases m.retrier t with
+      | none => simp [e]
+      | some r => cases o <;> simp [setR, e]
+  | drained t =>
+    have e : x ≠ t := hx
+    simp only [step]
+    cases m.retrier t with
+    | none => exact ⟨rfl, rfl⟩
+    | some r =>
+      simp only
+      split <;> simp [setR, e]
+
+theorem oneLoop_iff (m : Mgr) : OneLoop m ↔ ∀ t, m.tasks t = want (m.retrier t) := Iff.rfl
+
+theorem oneLoop_step (m : Mgr) (s : Step) (h : OneLoop m) : OneLoop (step m s) := by
+  rw [oneLoop_iff] at h ⊢
+  intro x
+  by_cases hx : x = s.target
+  · -- the tower the step is about: every combination of its retrier's status, its flags and the step's arguments
+    have ht := h s.target
+    cases s with
+    | setKnown t k => rw [hx]; exact ht
+    | recv t d =>
+      have e : x = t := hx
+      rw [e]
+      simp only [Step.target] at ht
+      cases hk : m.known t <;> cases hr : m.retrier t with
+      | none => simp [step, recv, hk, hr, setR, want] at ht ⊢ <;> exact ht
+      | some r =>
+        obtain ⟨st, pe⟩ := r
+        cases st <;> cases d <;> simp [step, recv, hk, hr, setR, want] at ht ⊢ <;> exact ht
+    | tick t a =>
+      have e : x = t := hx
+      rw [e]
+      simp only [Step.target] at ht
+      cases hk : m.known t <;> cases hr : m.retrier t with
+      | none => simp [step, tick, hr, want] at ht ⊢ <;> exact ht
+      | some r =>
+        obtain ⟨st, pe⟩ := r
+        cases st <;> cases pe <;> cases a <;>
+          simp [step, tick, hk, hr, setR, want, Retrier.shouldStart] at ht ⊢ <;> first | exact ht | omega
+    | finish t o =>
+      have e : x = t := hx
+      rw [e]
+      simp only [Step.target] at ht
+      cases hr : m.retrier t with
+      | none =>
+        simp [hr, want] at ht
+        simp [step, finish, ht, hr, want]
+      | some r =>
+        obtain ⟨st, pe⟩ := r
+        cases st <;> cases o <;> simp [hr, want] at ht <;> simp [step, finish, ht, hr, setR, want]
+    | drained t =>
+      have e : x = t := hx
+      rw [e]
+      simp only [Step.target] at ht
+      cases hr : m.retrier t with
+      | none => simp [step, hr, want] at ht ⊢; exact ht
+      | some r =>
+        obtain ⟨st, pe⟩ := r
+        cases st <;> simp [step, hr, setR, want] at ht ⊢ <;> exact ht
+  · obtain ⟨f1, f2⟩ := step_frame m s x hx
+    rw [f1, f2]; exact h x
+
+theorem oneLoop_run : ∀ (steps : List Step) (m : Mgr), OneLoop m → OneLoop (run m steps)
+  | [], _, h => h
+  | s :: r, m, h => by
+    unfold run
+    simp only [List.foldl_cons]
+    exact oneLoop_run r (step m s) (oneLoop_step m s h)
+
+/-- **never_two_retry_loops**: for EVERY interleaving of messages arriving on the manager's channel (fresh
+revocations, stale data, manual retries), iterations of the manager's loop (clean-up, starts, automatic
+wake-ups), retry tasks finishing in any way, towers being registered and abandoned — at no time is more than
+one retry task alive for a tower, and one is alive exactly when that tower's retrier is `Running`. -/
+theorem never_two_retry_loops (steps : List Step) (t : TowerId) :
+    (run Mgr.init steps).tasks t ≤ 1 ∧
+    ((run Mgr.init steps).tasks t = 1 ↔ ∃ r, (run Mgr.init steps).retrier t = some r ∧ r.status = .running) := by
+  have h := oneLoop_run steps Mgr.init oneLoop_init t
+  cases hr : (run Mgr.init steps).retrier t with
+  | none => rw [hr] at h; simp [want] at h; simp [h]
+  | some r =>
+    rw [hr] at h
+    by_cases e : r.status = .running
+    · simp [want, e] at h; simp [h, e]
+    · simp [want, e] at h; simp [h, e]
+
+/-- **new data never starts a second loop**: taking a message from the channel changes no task count -/
+theorem recv_spawns_nothing (m : Mgr) (t : TowerId) (d : Bool) (x : TowerId) :
+    (step m (.recv t d)).tasks x = m.tasks x := by
+  simp only [step, recv]
+  split
+  · rfl
+  · cases hr : m.retrier t with
+    | none => rfl
+    | some r =>
+      simp only
+      split
+      · split <;> rfl
+      · rfl
+
+/-- **a failed retrier is never restarted**: the next iteration of the manager's loop forgets it -/
+theorem failed_is_forgotten (m : Mgr) (t : TowerId) (a : Bool) (r : Retrier) (hr : m.retrier t = some r)
+    (hf : r.status = .failed) : (step m (.tick t a)).retrier t = none ∧ (step m (.tick t a)).tasks t = m.tasks t := by
+  simp only [step, tick, hr]
+  have : r.shouldStart = false := by simp [Retrier.shouldStart, hf]
+  simp [hf, this, setR]
+
+/-- non-vacuity: revocations while a task runs, the task gives up, a manual retry wakes the retrier, one task again -/
+example :
+    let m := run Mgr.init [.setKnown 0 true, .recv 0 false, .tick 0 false, .recv 0 false, .recv 0 false, .tick 0 false]
+    let m' := run m [.finish 0 .gaveUp, .recv 0 true, .tick 0 false]
+    m.tasks 0 = 1 ∧ (run m [.finish 0 .gaveUp]).tasks 0 = 0 ∧ m'.tasks 0 = 1 := by decide
+
+/-- **retry_task_call_sites_are_the_modelled_ones** (tie to the source, regenerated on every run): a retry
+task is spawned only in `Retrier::start`, which is called only by `start_retrying`, itself called only from
+the manager's loop (under `should_start()`); a retrier's status is written only by the manager's loop
+(`Stopped`, when an idle retrier is woken: twice) and by `start` (`Running` before the task is spawned;
+`Stopped` / `Failed` / `Idle` at the end of the task) — the steps `tick`, `recv` and `finish` of the model. -/
+theorem retry_task_call_sites_are_the_modelled_ones :
+    Teos.Gen.PluginCalls.spawn = [("retrier", "start", "")] ∧
+    Teos.Gen.PluginCalls.retrierStart = [("retrier", "start_retrying", "")] ∧
+    Teos.Gen.PluginCalls.startRetrying = [("retrier", "manage_retry", "")] ∧
+    Teos.Gen.PluginCalls.retrierStatus = [("retrier", "manage_retry", "Stopped"), ("retrier", "manage_retry", "Stopped"),
+      ("retrier", "start", "Running"), ("retrier", "start", "Stopped"), ("retrier", "start", "Failed"),
+      ("retrier", "start", "Idle")] := by
+  decide
 
 end Teos.C13
